@@ -29,7 +29,7 @@ class World:
         self.df = None
 
 
-def gen_world(rng, nmin=3, nmax=20, na_rate=0.0, na_cols=(), ordered_prob=0.5, force_levels=True):
+def gen_world(rng, nmin=3, nmax=20, na_rate=0.0, na_cols=(), ordered_prob=0.5, force_levels=True, distinct=0):
     w = World()
     n = w.n = rng.randint(nmin, nmax)
     data = {}
@@ -58,6 +58,11 @@ def gen_world(rng, nmin=3, nmax=20, na_rate=0.0, na_cols=(), ordered_prob=0.5, f
 
     def num(name, lo, hi):
         v = [rng.randint(lo, hi) for _ in range(n)]
+        if distinct and name in ("x", "z") and n >= distinct:
+            # at least `distinct` different values (poly / bs are degenerate otherwise)
+            vals = rng.sample(range(lo, hi + 1), distinct)
+            for pos, val in zip(rng.sample(range(n), distinct), vals):
+                v[pos] = val
         data[name] = np.array(v, dtype=np.int64)
         w.cols[name] = {"kind": "num", "v": v, "decl": []}
 
